@@ -88,9 +88,12 @@ def gen_cases(tier, seed, gen, effort):
     for s in rsrcs:
         if "/" in s or len(s) <= 2 or rnd.random() < 0.15:
             cases.append({"kind": "regex", "src": s, "custom": "/", "path": rnd.choice(["eq", "cased", "kw"])})
-    for s in ["a/b", "/", "http://x/*", "\\/", "a/*/b?", "*/", "/?"]:
-        for path in ("eq", "cased", "kw"):
+    for s in ["a/b", "/", "http://x/*", "\\/", "a/*/b?", "*/", "/?", "a\\/b", "\\\\/", "x\\", "\\/\\/"]:
+        for path in ("eq", "cased", "kw", "eq2", "cased2", "kw2"):
             cases.append({"kind": "regex", "src": s, "custom": "/", "path": path})
+    for s in rsrcs:
+        if ("\\" in s or "/" in s) and rnd.random() < 0.3:
+            cases.append({"kind": "regex", "src": s, "custom": "/", "path": rnd.choice(["eq2", "cased2", "kw2"])})
     for s in srcs:
         if len(s) <= 4 or rnd.random() < 0.05:
             cases.append({"kind": "slice", "src": s})
@@ -162,7 +165,33 @@ def regex_backend():
     return _backends["re"]
 
 
-PATH_PREFIX = {"eq": "f~/", "cased": "f~~/", "kw": "_~/"}
+def regex_backend2():
+    """the same templates for a target with a string layer around the regular expression: the backend escapes the delimiter
+    itself (re_escape) and doubles every backslash (re_escape_escape_char)"""
+    if "re2" not in _backends:
+        base = type(regex_backend())
+        _backends["re2"] = type("B_regex_string_layer", (base,), {"add_escaped_re": "", "re_escape": ("/",), "re_escape_char": "\\",
+                                                                 "re_escape_escape_char": True})()
+    return _backends["re2"]
+
+
+def read_regex_literal2(q, prefix):
+    """target reading with a string layer: a doubled backslash is one backslash, backslash-slash is a slash, a bare slash ends the
+    literal; the result is the regular expression"""
+    if not q.startswith(prefix):
+        return None
+    i, body = len(prefix), []
+    while i < len(q):
+        c = q[i]
+        if c == "\\" and i + 1 < len(q) and q[i + 1] in "\\/":
+            body.append(q[i + 1]); i += 2; continue
+        if c == "/":
+            return "".join(body), q[i + 1:]
+        body.append(c); i += 1
+    return "".join(body), None
+
+
+PATH_PREFIX = {"eq": "f~/", "cased": "f~~/", "kw": "_~/", "eq2": "f~/", "cased2": "f~~/", "kw2": "_~/"}
 
 
 def read_regex_literal(q, prefix):
@@ -222,10 +251,14 @@ def run_impl(case):
         if k == "regex" and case.get("path"):
             from sigma.rule import SigmaRule
             path = case["path"]
-            det = {"eq": {"f": case["src"]}, "cased": {"f|cased": case["src"]}, "kw": [case["src"]]}[path]
+            det = {"eq": {"f": case["src"]}, "cased": {"f|cased": case["src"]}, "kw": [case["src"]]}[path.rstrip("2")]
             rule = SigmaRule.from_dict({"title": "t", "logsource": {"category": "c"}, "detection": {"s": det, "condition": "s"}})
-            q = regex_backend().convert_rule(rule)[0]
-            lit = read_regex_literal(q, PATH_PREFIX[path])
+            if path.endswith("2"):
+                q = regex_backend2().convert_rule(rule)[0]
+                lit = read_regex_literal2(q, PATH_PREFIX[path])
+            else:
+                q = regex_backend().convert_rule(rule)[0]
+                lit = read_regex_literal(q, PATH_PREFIX[path])
             if lit is None:
                 return {"outcome": "ok", "other_form": q}
             text, rest = lit
@@ -274,7 +307,7 @@ def make_request(case, impl, gen):
     if k == "regex" and ("other_form" in impl or impl.get("terminated")):
         return {"op": "ping"}
     if k == "regex":
-        return {"op": "sstr.regex", "src": cps(case["src"]), "custom": cps(case["custom"]), "impl": impl["text"],
+        return {"op": "sstr.regex", "src": cps(case["src"]), "custom": cps("" if (case.get("path") or "").endswith("2") else case["custom"]), "impl": impl["text"],
                 "subjects": [cps(x) for x in impl["subjects"]]}
     if k == "slice":
         return {"op": "sstr.slice", "src": cps(case["src"])}
